@@ -78,6 +78,12 @@ DenseBudget(s, h) ==   \* C06: per epoch, dense user weights never exceed the de
      BLe(BSum(Users(h), LAMBDA a : F!StepValue(h.refW[a][lp], x)), F!StepValue(h.refTot[lp], x))
 NoWeightWithoutPosition(s, h) ==
   \A a \in Users(h) : \A lp \in h.lps : (lp \notin OpenLps(s, a)) => Hist(s, a, lp) = <<>>
+(* a user's weight is the weight of the user's open positions (FarmCurve); top-ups and partial closes round by one unit each *)
+Near(x, y, k) == BLe(x, BAdd(y, k)) /\ BLe(y, BAdd(x, k))
+OpenWeight(s, a, lp) == BSum({q \in DOMAIN Pos(s) : Pos(s)[q].owner = a /\ Pos(s)[q].lp = lp /\ Pos(s)[q].open},
+                             LAMBDA q : CV!CurveWeight(Pos(s)[q].amt, Pos(s)[q].dur))
+WeightIsThatOfOpenPositions(s, h, k) ==
+  \A a \in Users(h) : \A lp \in h.lps : Near(F!LatestValue(Hist(s, a, lp)), OpenWeight(s, a, lp), k)
 FarmLimit(s, h) ==
   \A lp \in h.lps : Cardinality({f \in DOMAIN Farms(s) : Farms(s)[f].lp = lp /\ ~FarmExpired(s, Farms(s)[f])}) <= s.fm.cfg.maxFarms
 Cumulative(s) ==
@@ -89,6 +95,7 @@ Invariants(p, h) ==
     C10_total_covers        |-> G(Cur(p) >= 0, TotalCovers(p, h)),
     C10_total_equal_simple  |-> G(~h.pieces, TotalEqualNow(p, h)),
     C10_no_weight_without_position |-> Must(NoWeightWithoutPosition(p, h)),
+    C10_weight_is_that_of_open_positions |-> Must(WeightIsThatOfOpenPositions(p, h, BNat(4 + h.nops))),
     C06_epoch_budget        |-> G(Cur(p) >= 0, DenseBudget(p, h)),
     C06_cumulative          |-> G(Cur(p) >= 0, Cumulative(p)),
     C11_limit               |-> Must(FarmLimit(p, h)) ]
@@ -436,7 +443,7 @@ Judge(s, h, e) ==
     [] Kind(e) = "fm_instantiate" -> [ S_instantiate_validates_config |-> Must(e.ok <=> CfgValid(e.cfg)) ]
 NextHid(s, h, e) ==
   LET p == e.post IN
-  CASE Kind(e) = "reset" -> Hid0(e) @@ [fmOwner |-> "u1"]
+  CASE Kind(e) = "reset" -> Hid0(e) @@ [fmOwner |-> "u1", nops |-> 0]
     [] Kind(e) = "fm_pos_create" -> HidPosCreate(s, h, e, p)
     [] Kind(e) = "fm_pos_expand" -> HidPosExpand(s, h, e, p)
     [] Kind(e) = "fm_pos_close" -> HidPosClose(s, h, e, p)
@@ -447,7 +454,8 @@ NextHid(s, h, e) ==
 Init == l = 1 /\ cnt = NoGuards /\ st = [none |-> TRUE] /\ hid = [none |-> TRUE]
 Step == /\ l <= Len(Rec)
         /\ LET e == Rec[l]
-               h1 == NextHid(st, hid, e)
+               h0 == NextHid(st, hid, e)
+               h1 == IF Kind(e) = "reset" THEN h0 ELSE [h0 EXCEPT !.nops = @ + 1]     \* events since the reset
                gs == Judge(st, hid, e) @@ (IF Kind(e) \in {"reset", "twin", "q_pages", "fm_instantiate"} THEN NoGuards ELSE Invariants(e.post, h1) @@ ModelGuards(st, e, e.post) @@ PositionLimits(e.post, h1))
            IN /\ Report(e.i, e.sc, gs)
               /\ cnt' = Count(cnt, gs)
